@@ -125,10 +125,13 @@ Section Shuffle.
     end.
 
   (* the data pipeline of one epoch of fit: z_samples, num_batches = ceil(N / pos_batch_size),
-     then _shuffle_data *)
+     then _shuffle_data.  pos_batch_size = 0 makes the real ceil(N / 0) raise: None here, because
+     [cdiv n 0 = 0] is only Coq's totalisation of division *)
   Definition fit_epoch (isZ : B -> bool) (pos_bs : nat) (neg_opt : option nat) (data : list A)
              (bases : option (list B)) (perm negidx : list nat) : option (list batch) :=
     let neg_bs := default_neg pos_bs neg_opt in
+    if Nat.eqb pos_bs 0 then None                     (* ceil(N / 0) raises ZeroDivisionError *)
+    else
     let nb := cdiv (length data) pos_bs in
     match bases with
     | None => shuffle_data pos_bs neg_bs nb data None [] perm negidx
@@ -138,6 +141,7 @@ Section Shuffle.
         | Some z => shuffle_data pos_bs neg_bs nb data (Some bs) z perm negidx
         end
     end.
+
   Definition fit_randint_request (isZ : B -> bool) (pos_bs : nat) (neg_opt : option nat) (data : list A)
              (bases : option (list B)) : option (nat * nat) :=
     let neg_bs := default_neg pos_bs neg_opt in
